@@ -2,7 +2,7 @@
 #![allow(unused_imports, dead_code, clippy::all)]
 
 use super::*;
-use packet::Attribute;
+// (Attribute is already imported by the parent module)
 
 /// AS_PATH attribute with a CONCRETE segment skeleton (counts) and symbolic segment types /
 /// AS numbers.  Returns the attribute together with the ASNs and types for the oracle.
@@ -166,4 +166,151 @@ fn c14_aspath_twin_must_fail() {
     let m = SingleAsPathMatch::Include(kani::any());
     assert!(!m.is_match(&attr));
     core::mem::forget(attr);
+}
+
+// ---------------------------------------------------------------------------------
+// C14: integer conditions
+// ---------------------------------------------------------------------------------
+
+fn fixed_vec<T, const N: usize>(items: [T; N], len: usize) -> Vec<T> {
+    assert!(len <= N);
+    let p = Box::into_raw(Box::new(items)) as *mut T;
+    unsafe { Vec::from_raw_parts(p, len, N) }
+}
+
+fn any_cmp() -> (Comparison, u8) {
+    let k: u8 = kani::any();
+    kani::assume(k < 3);
+    (
+        match k {
+            0 => Comparison::Eq,
+            1 => Comparison::Ge,
+            _ => Comparison::Le,
+        },
+        k,
+    )
+}
+
+fn cmp_ok(k: u8, a: u32, b: u32) -> bool {
+    match k {
+        0 => a == b,
+        1 => a >= b,
+        _ => a <= b,
+    }
+}
+
+//@ id=C14 tier=quick cap=1200 mem=24
+//@ fn: policy::Condition::evalute (LocalPrefEq, MedEq, Origin arms)
+//@ bound: route with attributes [ORIGIN, AS_PATH (2+1 ASNs, symbolic segment types), LOCAL_PREF, MED] with symbolic values or with NO attributes at all; source AS numbers symbolic; condition kind and operand symbolic; unwind 10
+//@ desc: value conditions: equality on the attribute's value; an absent attribute never matches; no panic
+#[kani::proof]
+#[kani::unwind(10)]
+fn c14_cond_int() {
+    // the condition kind is concrete per call: with a symbolic kind CBMC also explores the
+    // regex-based arms of evalute()
+    let k: u8 = kani::any();
+    kani::assume(k < 3);
+    match k {
+        0 => cond_int_case(0),
+        1 => cond_int_case(1),
+        _ => cond_int_case(2),
+    }
+}
+
+//@ id=C14 tier=quick cap=1200 mem=24
+//@ fn: policy::Condition::evalute (AsPathLength arm), bgp::Attribute::as_path_length
+//@ bound: as c14_cond_int; comparison operator and operand symbolic; unwind 10
+//@ desc: AS-path length condition: =, >=, <= over the hop count (SET = 1, CONFED = 0); an absent AS_PATH never matches
+#[kani::proof]
+#[kani::unwind(10)]
+fn c14_cond_aspath_len() {
+    cond_int_case(3);
+}
+
+//@ id=C14 tier=thorough cap=1200 mem=24
+//@ fn: policy::Condition::evalute (RouteType arm)
+//@ bound: source AS numbers symbolic; unwind 10
+//@ desc: route type internal/external by comparing the source's remote and local AS
+#[kani::proof]
+#[kani::unwind(10)]
+fn c14_cond_route_type() {
+    if kani::any() {
+        cond_int_case(4);
+    } else {
+        cond_int_case(5);
+    }
+}
+
+fn cond_int_case(kind: u8) {
+    let with_attrs: bool = kani::any();
+    let origin: u8 = kani::any();
+    kani::assume(origin <= 2);
+    let lp: u32 = kani::any();
+    let med: u32 = kani::any();
+    let (asp, asns, types) = skeleton(&[2, 1]);
+    let _ = asns;
+    let hop = |t: u8, n: usize| match t {
+        1 => 1usize,
+        2 => n,
+        _ => 0,
+    };
+    let hops = hop(types[0], 2) + hop(types[1], 1);
+    let attrs: Arc<Vec<Attribute>> = Arc::new(if with_attrs {
+        fixed_vec(
+            [
+                Attribute::new_with_value(Attribute::ORIGIN, origin as u32).unwrap(),
+                asp,
+                Attribute::new_with_value(Attribute::LOCAL_PREF, lp).unwrap(),
+                Attribute::new_with_value(Attribute::MULTI_EXIT_DESC, med).unwrap(),
+            ],
+            4,
+        )
+    } else {
+        core::mem::forget(asp);
+        Vec::new()
+    });
+    let keep = attrs.clone();
+    let remote_asn: u32 = kani::any();
+    let local_asn: u32 = kani::any();
+    let source = Arc::new(Source::new(
+        IpAddr::V4(Ipv4Addr::new(10, 0, 0, 1)),
+        IpAddr::V4(Ipv4Addr::new(10, 0, 0, 2)),
+        remote_asn,
+        local_asn,
+        Ipv4Addr::new(1, 1, 1, 1),
+        crate::PeerRole::Ebgp,
+    ));
+    let ksrc = source.clone();
+    let net = packet::Nlri::V4(packet::bgp::Ipv4Net {
+        addr: Ipv4Addr::new(10, 1, 0, 0),
+        mask: 16,
+    });
+    let v: u32 = kani::any();
+    let (cmp, ck) = any_cmp();
+    let (cond, want) = match kind {
+        0 => (Condition::LocalPrefEq(v), with_attrs && lp == v),
+        1 => (Condition::MedEq(v), with_attrs && med == v),
+        2 => {
+            let o: u8 = kani::any();
+            (Condition::Origin(o), with_attrs && origin == o)
+        }
+        3 => (
+            Condition::AsPathLength(cmp, v),
+            with_attrs && cmp_ok(ck, hops as u32, v),
+        ),
+        4 => (Condition::RouteType(RouteType::Internal), remote_asn == local_asn),
+        _ => (Condition::RouteType(RouteType::External), remote_asn != local_asn),
+    };
+    let got = cond.evalute(
+        &source,
+        &net,
+        &attrs,
+        None,
+        IpAddr::V4(Ipv4Addr::new(10, 0, 0, 1)),
+        None,
+    );
+    assert!(got == want);
+    kani::cover!(got);
+    kani::cover!(!got && with_attrs);
+    core::mem::forget((cond, attrs, keep, source, ksrc));
 }
